@@ -196,3 +196,46 @@ Proof.
   destruct (wmatch_entries _ _ _ M dt bs Hin) as (done & d & rest & s & _ & _ & I & _ & _ & Hb). subst bs.
   destruct I as [_ _ Is Ie]. apply day_end_balances_sorted. apply positions_distinct; assumption.
 Qed.
+
+(* ------------------------------------------------------------------ the range over the Go map *)
+
+Lemma sorted_perm_eq {A} (R : A -> A -> Prop) :
+  (forall x, ~ R x x) -> (forall x y z, R x y -> R y z -> R x z) ->
+  forall l1 l2, StronglySorted R l1 -> StronglySorted R l2 -> Permutation l1 l2 -> l1 = l2.
+Proof.
+  intros Hirr Htr. induction l1 as [|x t1 IH]; intros l2 S1 S2 P.
+  - apply Permutation_nil in P. subst l2. reflexivity.
+  - destruct l2 as [|y t2]; [apply Permutation_sym, Permutation_nil in P; discriminate|].
+    inversion S1 as [|x' t1' S1' H1]; subst. inversion S2 as [|y' t2' S2' H2]; subst.
+    rewrite Forall_forall in H1, H2.
+    assert (E : x = y).
+    { assert (Hx : In x (y :: t2)) by (apply (Permutation_in _ P); left; reflexivity).
+      assert (Hy : In y (x :: t1)) by (apply (Permutation_in _ (Permutation_sym P)); left; reflexivity).
+      destruct Hx as [Hx|Hx]; [symmetry; exact Hx|]. destruct Hy as [Hy|Hy]; [exact Hy|].
+      exfalso. apply (Hirr x). apply (Htr x y x); [apply H1; exact Hy|apply H2; exact Hx]. }
+    subst y. f_equal. apply IH; [exact S1'|exact S2'|]. apply (Permutation_cons_inv P).
+Qed.
+
+(* Checker.dayEnd ranges over ch.quantities (a Go map) and sorts the balances: whatever the
+   order of that range, the slice is the same *)
+Theorem day_end_map_order m l :
+  keys_sorted m -> (forall x, In x m -> entry_ok x) -> Permutation l m ->
+  sort_by bal_ltb (map entry_balance l) = day_end_balances m.
+Proof.
+  intros Hs He P. pose proof (positions_distinct m Hs He) as Hn.
+  assert (Hn' : NoDup (map bkey (map entry_balance l))).
+  { apply (Permutation_NoDup (l := map bkey (map entry_balance m))); [|exact Hn].
+    apply Permutation_map, Permutation_map, Permutation_sym. exact P. }
+  assert (SS : forall k, NoDup (map bkey (map entry_balance k)) ->
+               StronglySorted (fun x y => pos_ltb x y = true) (sort_by bal_ltb (map entry_balance k))).
+  { intros k Hk. apply (day_end_balances_sorted k Hk). }
+  apply (sorted_perm_eq (fun x y => pos_ltb x y = true)).
+  - intros x H. apply pos_ltb_klt in H. exact (klt_irrefl _ H).
+  - intros x y z H1 H2. apply pos_ltb_klt. apply pos_ltb_klt in H1, H2. eapply klt_trans; eassumption.
+  - apply SS. exact Hn'.
+  - apply (SS m Hn).
+  - unfold day_end_balances.
+    eapply Permutation_trans; [apply sort_by_perm|].
+    eapply Permutation_trans; [|apply Permutation_sym, sort_by_perm].
+    apply Permutation_map. exact P.
+Qed.
